@@ -332,7 +332,7 @@ func c11OnlyPlusAdded(r *an.Run) {
 				// must derive from r.Name.Replace(...)
 				fromReplacer := false
 				for v := range an.BackSlice(e, an.SliceOpts{ThroughCalls: true}) {
-					if call, ok := v.(*ssa.Call); ok && an.IsCallTo(call, replReplace) && call.Parent().Signature.Recv() != nil && an.Path(an.CallArgs(call)[0]) == call.Parent().Signature.Recv().Name()+".Name" {
+					if call, ok := v.(*ssa.Call); ok && an.IsCallTo(call, replReplace) && call.Parent().Signature.Recv() != nil && an.Path(an.CallArgs(call)[0]) == an.CanonParamName(call.Parent().Signature.Recv())+".Name" {
 						fromReplacer = true
 					}
 				}
